@@ -3,7 +3,7 @@
    routines, any buffer sizes, any nesting) and ALL schedules.  What the model cannot exhibit (Go scheduler,
    data races on interpreter globals, fatal `concurrent map` errors) is exercised on the implementation only:
    see props/C17.json. *)
-From C17 Require Import Model Spec Steps ChanProofs MutexProofs CounterProofs FlatProofs ObsProofs Explore Corr Proofs.
+From C17 Require Import Model Spec Steps ChanProofs MutexProofs CounterProofs FlatProofs ObsProofs Explore Corr Proofs ScopeModel ScopeProofs.
 
 (* (1) "every item pushed on a channel is received exactly once".
    Conservation: what was sent on a channel = what was received ++ what is still queued ++ what a close
@@ -93,12 +93,16 @@ Theorem C17_exit_by_marker : marker_facts false = true /\ marker_facts true = tr
 Proof. exact exit_by_marker. Qed.
 Print Assumptions C17_exit_by_marker.
 
-(* faithful to slip (C07): a return-from that is NOT the last form of with-mutex-lock is dropped, the body carries
-   on; the mutex is released at the end of the body *)
-Theorem C17_marker_dropped :
-  exists sf, run_sched (init ex_dropped) (repeat (0, 0)%nat 11) = Some sf /\ all_finished sf = true /\ mem sf = [5%Z] /\ mus sf = [None].
-Proof. exact marker_dropped. Qed.
-Print Assumptions C17_marker_dropped.
+(* after the repairs of slip's exit markers (C07-1..21, which this model assumes): a return-from that is NOT the
+   last form of with-mutex-lock leaves it all the same - the forms after it are skipped, the mutex is free as soon as
+   the marker has left the lock frame (4 moves), the block takes the marker, the routine locks the mutex again *)
+Theorem C17_marker_leaves_from_any_position :
+  (exists s4, run_sched (init ex_midbody) (repeat (0, 0)%nat 4) = Some s4 /\ mus s4 = [None] /\
+              ext (nth 0 (rs s4) (init_routine [])) = Some (false, 0%nat)) /\
+  exists sf, run_sched (init ex_midbody) (repeat (0, 0)%nat 9) = Some sf /\ all_finished sf = true /\ mem sf = [0%Z] /\ mus sf = [None] /\
+             log (nth 0 (rs sf) (init_routine [])) = [EvLoad 0 0%Z].
+Proof. exact marker_leaves_from_any_position. Qed.
+Print Assumptions C17_marker_leaves_from_any_position.
 
 Theorem C17_all_free_at_end : forall p s m o, reach p s -> all_finished s = true -> nth_error (mus s) m = Some o -> o = None.
 Proof. exact all_free_at_end. Qed.
@@ -215,3 +219,60 @@ Theorem C17_uncaught_error_crashes :
   exists s, reach w_crash s /\ existsb crashed (rs s) = true /\ mus s = [None].
 Proof. exact uncaught_error_crashes_but_frees_mutex. Qed.
 Print Assumptions C17_uncaught_error_crashes.
+
+(* (10) "the interpreter's own shared tables are never corrupted": the scopes.  ScopeModel.v models what
+   (run form) shares: a routine's variable lookups walk from its scope through `parents` (let: one parent; call of a
+   lambda: its closure scope and the caller's scope); the repaired run makes every scope the new routine can reach
+   synchronized (Scope.Share).  For every program and every interleaving of lets, calls of lexically visible closures,
+   returns and runs: a scope that two different routines can reach is synchronized (its variable map is only touched
+   under its mutex). *)
+Theorem C17_shared_scope_synchronized : forall st i j t,
+  sreach st -> i <> j -> touches st i t -> touches st j t -> synced st t = true.
+Proof. exact shared_scope_synchronized. Qed.
+Print Assumptions C17_shared_scope_synchronized.
+
+(* ... and the switch from the no-op locker to a mutex is made only while the running routine is the scope's only
+   user - the condition locker.go states for it *)
+Theorem C17_share_switches_while_single_user : forall st i st' t j,
+  sreach st -> sstep st i SRun = Some st' -> synced st t = false -> synced st' t = true -> j <> i -> ~ touches st j t.
+Proof. exact share_switches_while_single_user. Qed.
+Print Assumptions C17_share_switches_while_single_user.
+
+(* ... and a program that never calls run gets no mutex at all (the repair costs single-threaded programs nothing) *)
+Theorem C17_no_run_no_mutex : forall sch st, srun sinit sch = Some st -> norun sch = true -> forall t, synced st t = false.
+Proof. exact no_run_no_mutex. Qed.
+Print Assumptions C17_no_run_no_mutex.
+
+(* REFUTED outside the guard (known finding C17-closure-scope-race): a function defined inside a let and called by
+   two routines brings a closure scope that no run ever saw: both routines use it, it is not synchronized *)
+Theorem C17_global_closure_scope_unsynchronized_refuted :
+  exists st, srun sinit closure_witness = Some st /\ touches st 0 1 /\ touches st 1 1 /\ synced st 1 = false.
+Proof. exact global_closure_scope_unsynchronized_refuted. Qed.
+Print Assumptions C17_global_closure_scope_unsynchronized_refuted.
+
+(* non-vacuity: the documented example (a let, two routines started from it, one of them calls a visible closure) *)
+Theorem C17_scope_example :
+  exists st, srun_g sinit example_sched = Some st /\ sreach st /\ map (synced st) [0; 1; 2; 3] = [true; true; false; false] /\
+             touches st 1 1 /\ touches st 2 1.
+Proof. exact scope_example. Qed.
+Print Assumptions C17_scope_example.
+
+(* (11) forms compiled in place on first evaluation (function.go setCompiled): any number of threads, any
+   interleaving of "read the slot / compile my own object / setCompiled": the slot is stored at most once and every
+   thread evaluates the one object that is in the slot *)
+Theorem C17_compile_slot_converges : forall n sch st, crun (cinit n) sch = Some st ->
+  writes st <= 1 /\ forall i c, nth_error (phases st) i = Some (CUse c) -> slot st = Some c.
+Proof. exact compile_slot_converges. Qed.
+Print Assumptions C17_compile_slot_converges.
+
+(* the unconditional store before the repair: two stores, two different objects in use *)
+Theorem C17_original_store_diverges_refuted :
+  exists st, crun_orig (cinit 2) [0; 1; 0; 1] = Some st /\ writes st = 2 /\
+             nth_error (phases st) 0 = Some (CUse 0) /\ nth_error (phases st) 1 = Some (CUse 1) /\ slot st = Some 1.
+Proof. exact original_store_diverges_refuted. Qed.
+Print Assumptions C17_original_store_diverges_refuted.
+
+Theorem C17_compile_slot_example :
+  exists st, crun (cinit 3) [0; 1; 1; 0; 2] = Some st /\ writes st = 1 /\ phases st = [CUse 1; CUse 1; CUse 1].
+Proof. exact compile_slot_example. Qed.
+Print Assumptions C17_compile_slot_example.
